@@ -23,9 +23,9 @@ def enc_val(key, v, force=None):
     if force == 'bare':
         return v
     b = v.encode('utf-8')
-    if force == 'hex' or (key in ('name', 'comm', 'profile', 'target', 'peer', 'info') and force != 'quoted'
+    if force == 'hex' or (key in ('name', 'comm', 'profile', 'target', 'peer', 'info', 'srcname') and force != 'quoted'
                           and not all(chr(c) in SAFE for c in b)):
-        if key in ('name', 'comm', 'profile'):
+        if key in ('name', 'comm', 'profile', 'srcname'):
             return binascii.hexlify(b).decode().upper()
     return '"' + v + '"'
 
@@ -106,7 +106,7 @@ def gen_event(rng, noise=False):
     else:
         f += [('operation', 'mount', None), ('class', 'mount', None), ('info', 'failed mntpnt match', None), ('error', '-13', 'bare'),
               ('profile', prof, None), ('name', rng.choice(['/mnt/', '/run/x/']), None), ('pid', pid, 'bare'), ('comm', comm, None),
-              ('fstype', rng.choice(['tmpfs', 'ext4']), None), ('srcname', rng.choice(['tmpfs', '/dev/sda1']), None),
+              ('fstype', rng.choice(['tmpfs', 'ext4']), None), ('srcname', rng.choice(['tmpfs', '/dev/sda1', '/mnt/data/My Videos/', '/mnt/data/Vidéos/']), None),
               ('flags', rng.choice(['rw, nosuid', 'ro, remount']), None)]
     return Ev(f)
 
@@ -128,7 +128,21 @@ def gen_log(rng, n_events, fmt=None, long_line=None):
         if r < 0.15 and pool:
             e = rng.choice(pool)          # repeat: identical up to timestamp / pid
             e = Ev([(k, (str(rng.randint(2, 99999)) if k in ('pid', 'peer_pid') and rng.random() < 0.7 else v), enc) for k, v, enc in e.fields])
-        elif r < 0.25:
+        elif r < 0.22 and pool:
+            # near duplicate: the same access with one field changed (other target, peer, signal, name, mask)
+            base = rng.choice(pool)
+            fs = list(base.fields)
+            idx = [i for i, (k, v, enc) in enumerate(fs) if k in ('target', 'peer', 'signal', 'name', 'requested_mask', 'capname', 'member', 'sock_type', 'srcname')]
+            if idx:
+                i = rng.choice(idx)
+                k, v, enc = fs[i]
+                alt = {'target': NAMES, 'peer': PROFILES, 'signal': ['term', 'kill', 'hup', 'int'], 'name': NAMES if base.get('class') != 'mount' and 'dbus' not in (base.get('operation') or '') else [v],
+                       'requested_mask': [v], 'capname': ['net_admin', 'sys_admin', 'dac_override', 'kill'], 'member': ['Hello', 'GetAll', 'Set'],
+                       'sock_type': ['stream', 'dgram', 'raw'], 'srcname': ['tmpfs', '/dev/sda1', '/mnt/data/My Videos/']}[k]
+                fs[i] = (k, rng.choice(alt), enc)
+            e = Ev(fs)
+            pool.append(e)
+        elif r < 0.30:
             e = gen_event(rng, noise=True)
         elif r < 0.4:
             lines.append(rng.choice(FOREIGN))
